@@ -13,6 +13,7 @@ import PsutilModel.Proofs.C16Seq
 import PsutilModel.Proofs.C16Conc
 import PsutilModel.Proofs.C16Lock
 import PsutilModel.Proofs.C16Conc2
+import PsutilModel.Proofs.C16Reads
 import PsutilModel.Model.C16Gen
 namespace Psutil.C16
 open Spec
@@ -79,6 +80,64 @@ theorem C16_probes_bypass_cache : ¬ C16_stat_opened_at_most_once_Literal := by
   have := h [] [.call 0, .call 1] rfl (by decide)
   revert this
   decide
+
+/-- the rows of the generated method table that read `stat` past the cache: `ppid()` re-validates the
+    PID (`_raise_if_pid_reused()` → `is_running()` → fresh `Process(pid)`), `memory_maps()` and
+    `cmdline()` call `_is_zombie()` when their file came back empty -/
+theorem C16_probing_methods :
+    (cfg.meths.filter (fun m => m.guard)).map (·.name) = ["ppid"] ∧
+    (cfg.meths.filter (fun m => m.zprobe)).map (·.name) = ["memory_maps", "cmdline"] := by decide
+
+/-- **what is read once and what is re-read** (exact region of finding C16-probe-rereads-stat).
+    (1) The CACHED READ ROUTINES (`_parse_stat_file`, `_read_status_file`, `_read_smaps_file`) run at
+        most once per outermost block, whatever happens in it.
+    (2) A block in which no identity-probing / zombie-probing method is called (directly or through
+        as_dict) opens `stat` at most once in total: outside the region the literal file-level
+        statement holds.
+    (3) What IS re-read: a call whose front-end method re-validates the PID performs exactly one
+        fresh `stat` read per computation while the process directory exists (never through the
+        cache — C01 needs that read to be fresh: a cached answer is what let signals reach a
+        recycled PID in seeded change C01-1), plus at most one `_is_zombie()` read for the methods
+        that check for a zombie; nothing else probes.
+    (4) A front-end cache hit (second `ppid()` in a block) reads and probes nothing. -/
+theorem C16_reads_characterised :
+    (∀ (pre blk : List Op) (s : Src), blockCached s = true → (runAll cfg Sys.init pre).st.stack = [] →
+      staysIn 1 blk = true →
+      (runAll cfg Sys.init (pre ++ Op.enter :: blk)).st.reads s ≤ (runAll cfg Sys.init pre).st.reads s + 1) ∧
+    (∀ (pre blk : List Op), (pre ++ Op.enter :: blk).all (cleanOp cfg) = true →
+      (runAll cfg Sys.init pre).st.stack = [] → staysIn 1 blk = true →
+      let a := (runAll cfg Sys.init pre).st
+      let b := (runAll cfg Sys.init (pre ++ Op.enter :: blk)).st
+      b.probes = 0 ∧ (b.reads .stat + b.probes) ≤ (a.reads .stat + a.probes) + 1) ∧
+    (∀ (m : Meth) (st : St) (w : World),
+      (frontGuarded cfg m st w).1.probes ≤ st.probes + (if guardRuns m w then 1 else 0) + (if m.zprobe then 1 else 0) ∧
+      (m.guard = true → m.zprobe = false → w.st ≠ PState.gone → (frontGuarded cfg m st w).1.probes = st.probes + 1) ∧
+      (m.guard = false → m.zprobe = false → (call cfg m st w).1.probes = st.probes)) ∧
+    (∀ (m : Meth) (st : St) (w : World) (f : FFun) (d : List (FFun × Val)) (v : Val), m.front = some f →
+      st.cache = some d → d.lookup f = some v → call cfg m st w = (st, .ok v)) := by
+  refine ⟨fun pre blk s hs hout hin => read_at_most_once cfg cfg_good pre blk s hs hout hin,
+    fun pre blk hcl hout hin => ?_, fun m st w => ⟨(frontGuarded_probes cfg m st w).1, fun hg hz hw => ?_,
+      fun hg hz => call_probes_clean cfg m st w hg hz⟩,
+    fun m st w f d v hf hc hl => call_hit_noop cfg m st w f d v hf (cfg_good.mf f) hc hl⟩
+  · have hp1 : (runAll cfg Sys.init (pre ++ Op.enter :: blk)).st.probes = 0 :=
+      runAll_probes_clean cfg cfg_good.vfirst _ Sys.init hcl
+    have hpre : pre.all (cleanOp cfg) = true := by
+      simp only [List.all_append, Bool.and_eq_true] at hcl; exact hcl.1
+    have hp0 : (runAll cfg Sys.init pre).st.probes = 0 := runAll_probes_clean cfg cfg_good.vfirst _ Sys.init hpre
+    have hr := read_at_most_once cfg cfg_good pre blk .stat rfl hout hin
+    simp only
+    rw [hp1, hp0]
+    exact ⟨rfl, by omega⟩
+  · have hb := frontGuarded_probes cfg m st w
+    have hgr : guardRuns m w = true := by
+      unfold guardRuns; cases hws : w.st <;> simp_all
+    have hgone : (m.goneCheck && w.st == PState.gone) = false := by
+      cases hws : w.st <;> simp_all
+    rw [hgr, hz, hgone] at hb
+    simp only [if_true, Bool.false_eq_true, if_false, Nat.add_zero] at hb
+    omega
+
+example : cleanOp cfg (.call 0) = true ∧ cleanOp cfg (.call 1) = false := by decide
 
 /-- **fresh after exit.** Outside every block a call's result depends on the current world only
     (`bodyG` = the method computed from scratch on a fresh specification state) … -/
